@@ -256,7 +256,7 @@ def run(chk, model_ok=True):
     n_cli = 0
     for key, script, r, why in c13.client_cases(rng, 24 if quick else 480):
         n_cli += 1
-        if why and any(w in why for w in ("HMAC", "not readable", "keys were not installed", "not encrypted", "engine id")):
+        if why and any(w in why for w in ("HMAC", "not readable", "keys were not installed", "not encrypted", "engine id", "failed with")):
             fail(f"{key}: {why}", f"# client {key}")
     n_sess += n_cli
     # the key classes of user.py against their model (padding, codes, refusal of priv without auth)
